@@ -2712,7 +2712,7 @@ func doCompositeBinStruct(n *node, hasType bool) {
 		switch {
 		case d.Kind() == reflect.Ptr:
 			d.Set(s.Addr())
-		case inPlace && d.CanSet() && d.Type() == s.Type():
+		case inPlace && d.CanSet() && s.Type().AssignableTo(d.Type()):
 			d.Set(s)
 		default:
 			getFrame(f, l).data[frameIndex] = s
@@ -2798,7 +2798,7 @@ func doComposite(n *node, hasType bool, keyed bool) {
 				break
 			}
 			d.Set(a)
-		case inPlace && d.CanSet() && d.Type() == a.Type():
+		case inPlace && d.CanSet() && a.Type().AssignableTo(d.Type()):
 			d.Set(a)
 		default:
 			getFrame(f, l).data[frameIndex] = a
